@@ -90,6 +90,8 @@ def join(a, b):
 def deep(a):
     if a is None:
         return None
+    if isinstance(a, dict):
+        return ('views', tuple(sorted(a.items())))
     if a.kind == 'tuple':
         return ('T', a.t, tuple(deep(e) for e in a.elems))
     if a.kind == 'dict':
@@ -102,7 +104,10 @@ def deep(a):
 
 
 def env_join(e1, e2):
-    return {k: join(e1.get(k), e2.get(k)) for k in set(e1) | set(e2)}
+    out = {k: join(e1.get(k), e2.get(k)) for k in (set(e1) | set(e2)) - {'__views__'}}
+    v1, v2 = e1.get('__views__') or {}, e2.get('__views__') or {}
+    out['__views__'] = ViewMap({k: b for k, b in v1.items() if v2.get(k) == b})       # a view relation must hold on both paths
+    return out
 
 
 def env_eq(e1, e2):
@@ -116,6 +121,28 @@ class Release:
 
     def key(self):
         return (self.mod.rel, self.node.lineno, self.node.col_offset)
+
+
+class ViewMap(dict):
+    """view name -> base name (numpy basic slices share memory); travels in the environment under '__views__'"""
+    kind = 'views'
+    t = st = False
+    count = False
+
+    def anyt(self):
+        return False
+
+    def reason(self):
+        return None
+
+
+def is_basic_slice(sl):
+    if isinstance(sl, ast.Slice):
+        return True
+    if isinstance(sl, ast.Tuple):
+        return all(isinstance(x, ast.Slice) or (isinstance(x, ast.Constant) and x.value is Ellipsis) for x in sl.elts) and \
+            any(isinstance(x, ast.Slice) for x in sl.elts)
+    return False
 
 
 class Taint:
@@ -634,6 +661,17 @@ class Taint:
             v = self.ev(st.value, env, mod)
             for t in st.targets:
                 self.bind(t, v, env, mod)
+            # numpy views: `n = b[lo:hi]` shares memory with b, so a later in-place `b += noise` is seen through n as well
+            views = ViewMap(env.get('__views__') or {})
+            for t in st.targets:
+                for nm in ([t.id] if isinstance(t, ast.Name) else []):
+                    views.pop(nm, None)
+                    for k in [k for k, b_ in views.items() if b_ == nm]:
+                        del views[k]
+            if len(st.targets) == 1 and isinstance(st.targets[0], ast.Name) and isinstance(st.value, ast.Subscript) \
+                    and isinstance(st.value.value, ast.Name) and is_basic_slice(st.value.slice):
+                views[st.targets[0].id] = st.value.value.id
+            env['__views__'] = views
         elif isinstance(st, ast.AnnAssign):
             if st.value is not None:
                 self.bind(st.target, self.ev(st.value, env, mod), env, mod)
@@ -642,6 +680,11 @@ class Taint:
             ast.copy_location(fake, st)
             v = self.ev(fake, env, mod)
             self.bind(st.target, v, env, mod)
+            if isinstance(st.target, ast.Name):
+                # in place on an array: every view of it holds the updated cells
+                for k, b_ in (env.get('__views__') or {}).items():
+                    if b_ == st.target.id:
+                        env[k] = v
         elif isinstance(st, ast.Expr):
             self.ev(st.value, env, mod)
         elif isinstance(st, ast.Return):
